@@ -74,6 +74,47 @@ func c01Reference(s string) (evs []c01Event, unexpectedEOF bool) {
 	return evs, false
 }
 
+// a reader that hands out fixed chunks and returns io.EOF together with the last one
+type c01ChunkReader struct{ chunks []string }
+
+func (r *c01ChunkReader) Read(p []byte) (int, error) {
+	for len(r.chunks) > 0 && r.chunks[0] == "" {
+		r.chunks = r.chunks[1:]
+	}
+	if len(r.chunks) == 0 {
+		return 0, io.EOF
+	}
+	n := copy(p, r.chunks[0])
+	if n < len(r.chunks[0]) {
+		r.chunks[0] = r.chunks[0][n:]
+		return n, nil
+	}
+	r.chunks = r.chunks[1:]
+	if len(r.chunks) == 0 {
+		return n, io.EOF
+	}
+	return n, nil
+}
+
+// c01Readers: the ways a stream is handed to the parser - whole, one byte at a time, both again with io.EOF
+// arriving together with the last bytes, and cut after each of its first three CRs with data and EOF together.
+func c01Readers(s string) (names []string, mk []func() io.Reader) {
+	add := func(n string, f func() io.Reader) { names = append(names, n); mk = append(mk, f) }
+	add("whole", func() io.Reader { return strings.NewReader(s) })
+	add("one-byte", func() io.Reader { return iotest.OneByteReader(strings.NewReader(s)) })
+	add("whole+eof", func() io.Reader { return &c01ChunkReader{chunks: []string{s}} })
+	add("one-byte+eof", func() io.Reader { return iotest.DataErrReader(iotest.OneByteReader(strings.NewReader(s))) })
+	cuts := 0
+	for i := 0; i < len(s) && cuts < 3; i++ {
+		if s[i] == '\r' && i+1 < len(s) {
+			i := i
+			cuts++
+			add(fmt.Sprintf("cut-after-cr@%d+eof", i), func() io.Reader { return &c01ChunkReader{chunks: []string{s[:i+1], s[i+1:]}} })
+		}
+	}
+	return
+}
+
 func c01Run(r io.Reader) (evs []c01Event, err error) {
 	sse.Read(r, nil)(func(e sse.Event, er error) bool {
 		if er != nil {
@@ -97,12 +138,9 @@ func TestVerifBounded_C01(t *testing.T) {
 	var rec func(prefix string, depth int)
 	check := func(s string) {
 		want, ueof := c01Reference(s)
-		for mode := 0; mode < 2; mode++ {
-			var rd io.Reader = strings.NewReader(s)
-			if mode == 1 {
-				rd = iotest.OneByteReader(strings.NewReader(s))
-			}
-			got, err := c01Run(rd)
+		names, readers := c01Readers(s)
+		for mode := range readers {
+			got, err := c01Run(readers[mode]())
 			total++
 			ok := fmt.Sprint(got) == fmt.Sprint(want)
 			if ueof {
@@ -113,7 +151,7 @@ func TestVerifBounded_C01(t *testing.T) {
 			if !ok {
 				fails++
 				if fails <= 20 {
-					fmt.Printf("BOUNDED-FAIL %s\n", mustJSON(map[string]any{"input": s, "one_byte_reader": mode == 1, "got": got, "got_err": fmt.Sprint(err), "want": want, "want_unexpected_eof": ueof}))
+					fmt.Printf("BOUNDED-FAIL %s\n", mustJSON(map[string]any{"input": s, "reader": names[mode], "got": got, "got_err": fmt.Sprint(err), "want": want, "want_unexpected_eof": ueof}))
 				}
 			}
 		}
@@ -145,7 +183,7 @@ func TestVerifBounded_C01(t *testing.T) {
 		rec("", 0)
 	}
 	fmt.Printf("BOUNDED-STATS %s\n", mustJSON(map[string]any{"bound_tokens": bound, "alphabet": c01Alphabet, "evaluations": total, "distinct_nontrivial": nontrivial,
-		"rule": "every concatenation of at most bound_tokens tokens of the alphabet, read whole and through a one-byte reader; non-trivial = the reference interpreter dispatches at least one event", "failures": fails, "samples": samples, "exhaustive": true}))
+		"rule": "every concatenation of at most bound_tokens tokens of the alphabet, read whole, one byte at a time, each also with io.EOF delivered together with the last bytes, and cut after each of the first three CRs; non-trivial = the reference interpreter dispatches at least one event", "failures": fails, "samples": samples, "exhaustive": true}))
 	if fails > 0 {
 		t.Fatalf("%d of %d executions disagree with the reference interpreter", fails, total)
 	}
